@@ -107,8 +107,11 @@ int main(int argc, char **argv) {
             cv_pentagon_strata(&cv, res, quick ? 2 : 3); cv_random_cells(&cv, res, quick ? 10 : 60); cv_seam_cells(&cv, res, quick ? 1 : 4); cv_sparse_digit_sample(&cv, res, quick ? 6 : 40); cv_coarse_boundary_sample(&cv, res, quick ? 8 : 40); cv_polar_cells(&cv, res); cv_antimeridian_cells(&cv, res, quick ? 1 : 6);
             /* along the icosahedron edges inside the pentagons' base cells: sub-trees that spill over onto the neighbouring face */
             if (res >= 5 && res <= (quick ? 8 : 11)) { CellVec b = {0}; cv_icosa_band_cells(&b, res, quick ? 4 : 8); for (int64_t i = (int64_t)vt_randn(2); i < b.n; i += 2) cv_push(&cv, b.v[i]); cv_free(&b); }
+            if (res >= 5 && res <= (quick ? 8 : 11)) cv_pentagon_edge_band(&cv, res, quick ? 3 : 1, (int)strtoull(argv[3], 0, 10) + res, quick ? 8 : 16);
+            int64_t nsampled = cv.n;
+            if (res == 5 || (!quick && res <= 7)) cv_pentagon_edge_strip(&cv, res, 1, 0);      /* complete strips: the tips of sub-trees spilling over an icosahedron edge are single spots */
             for (int64_t i = 0; i < cv.n; i++) {
-                if (quick && (i % 2) && (res % 3)) continue;
+                if (quick && i < nsampled && (i % 2) && (res % 3)) continue;
                 ev_edge_nbhd(cv.v[i]); ev_vertex_nbhd(cv.v[i]);
                 if (i % 3 == 0) { pair_events(cv.v[i]); word_events(cv.v[i]); }
             }
